@@ -97,3 +97,64 @@ Definition lost_rw (r : rw) (l : loop) : list window :=
   | RUnrollChildren => unroll_children_lost l
   | _ => []
   end.
+
+(* ---- rewrites anywhere in the tree, and sequences of them (what flatten_and_balance / cleanup are made of) ------------- *)
+Fixpoint apply_at (path : list nat) (r : rw) (l : loop) {struct path} : option loop :=
+  match path with
+  | [] => apply_rw r l
+  | i :: rest =>
+      match l with
+      | Loop n wf ms ch =>
+          match nth_error ch i with
+          | Some c => match apply_at rest r c with
+                      | Some c' => Some (Loop n wf ms (firstn i ch ++ [c'] ++ skipn (S i) ch))
+                      | None => None
+                      end
+          | None => None
+          end
+      end
+  end.
+(* the windows lost by the rewrite, in the times of the root *)
+Fixpoint lost_at (path : list nat) (r : rw) (l : loop) {struct path} : list window :=
+  match path with
+  | [] => lost_rw r l
+  | i :: rest =>
+      match l with
+      | Loop n wf ms ch =>
+          match nth_error ch i with
+          | Some c => tile n (body_of wf (map ldur ch)) (shift (sumc (map ldur (firstn i ch))) (lost_at rest r c))
+          | None => []
+          end
+      end
+  end.
+(* side conditions of the unroll rewrites (see ProofsRw.unroll_at_spec), executable *)
+Definition side_b (r : rw) (l : loop) : bool :=
+  match r with
+  | RUnroll i => match l_wf l with None => true | Some _ => false end
+                 || match nth_error (l_ch l) i with Some c => (1 <=? l_rep c)%nat | None => false end
+  | RUnrollChildren => (1 <=? l_rep l)%nat
+  | _ => true
+  end.
+Fixpoint side_at (path : list nat) (r : rw) (l : loop) {struct path} : bool :=
+  match path with
+  | [] => side_b r l
+  | i :: rest => match nth_error (l_ch l) i with Some c => side_at rest r c | None => true end
+  end.
+Fixpoint run_seq (steps : list (list nat * rw)) (l : loop) : option (loop * list window) :=
+  match steps with
+  | [] => Some (l, [])
+  | (path, r) :: rest =>
+      match apply_at path r l with
+      | Some l1 => match run_seq rest l1 with
+                   | Some (l2, lost2) => Some (l2, lost2 ++ lost_at path r l)
+                   | None => None
+                   end
+      | None => None
+      end
+  end.
+Fixpoint sides_ok (steps : list (list nat * rw)) (l : loop) : bool :=
+  match steps with
+  | [] => true
+  | (path, r) :: rest =>
+      side_at path r l && match apply_at path r l with Some l1 => sides_ok rest l1 | None => true end
+  end.
